@@ -2,6 +2,7 @@ package main
 
 import (
 	"fmt"
+	"go/token"
 	"go/types"
 	"strings"
 
@@ -54,6 +55,16 @@ func checkC05(ctx *Ctx) *Result {
 	errorMessages(ctx, r, "R5.4")
 	r.rule("R4.8", "the switches the validators consult are copied from the Config on every path before they run (a violation in one field must not hide violations in another)", 1)
 	builderPlumbing(ctx, r, "R4.8")
+	// "for each violation, an error": the predicates that decide whether a
+	// pattern is insecure or a public suffix must not miss a case
+	r.rule("R4.6", "pattern predicates: IsDeemedInsecure and HostIsEffectiveTLD compute the documented truth tables (trailing dot trimmed before the look-up and the comparison)", 2)
+	patternPredicates(ctx, r, "R4.6")
+	// "a Config assembled only from documented-permitted settings is accepted":
+	// the pattern parser rejects nothing the documentation permits
+	r.share(checkC13(ctx), map[string]string{
+		"R13.1":  "documented limits are the constants in use; the lexers' loops are bounded by them (a scheme, host or port of the documented maximal length is still accepted)",
+		"R13.10": "every rejecting path of ParsePattern is decided by one of the documented defects",
+	}, nil)
 	return r
 }
 
@@ -99,6 +110,16 @@ func closedErrorUniverse(ctx *Ctx, r *Result, rule string) {
 					// the constants the stored value can be (through φ and, for a
 					// parameter of an unexported helper, through every call site)
 					vals, why := constStrings(p, x.Val, map[ssa.Value]bool{})
+					// ... minus those a dominating test excludes (`if reason != "" { … Reason: reason … }`)
+					if excl := excludedAt(x.Val, x.Block()); len(excl) > 0 {
+						kept := vals[:0:0]
+						for _, v := range vals {
+							if !excl[v] {
+								kept = append(kept, v)
+							}
+						}
+						vals = kept
+					}
 					good := why == "" && len(vals) > 0
 					got := "a non-constant value"
 					if why != "" {
@@ -230,8 +251,35 @@ func constStrings(p *Prog, v ssa.Value, seen map[ssa.Value]bool) (vals []string,
 			return w
 		})
 		return vals, w
+	case *ssa.Extract:
+		// one result of a module helper: what the helper returns there
+		if c, ok := x.Tuple.(*ssa.Call); ok {
+			return constResults(p, c, x.Index, seen)
+		}
+	case *ssa.Call:
+		return constResults(p, x, 0, seen)
 	}
 	return nil, "value of unknown origin " + v.Name()
+}
+
+// constResults: the constants a module function can return as its idx-th result.
+func constResults(p *Prog, c *ssa.Call, idx int, seen map[ssa.Value]bool) (vals []string, why string) {
+	f := c.Common().StaticCallee()
+	if f == nil || !p.InModule(f) || len(f.Blocks) == 0 {
+		return nil, "result of " + c.Common().Value.Name()
+	}
+	for _, b := range f.Blocks {
+		for _, ins := range b.Instrs {
+			if ret, ok := ins.(*ssa.Return); ok && idx < len(ret.Results) {
+				vs, w := constStrings(p, ret.Results[idx], seen)
+				if w != "" {
+					return nil, w
+				}
+				vals = append(vals, vs...)
+			}
+		}
+	}
+	return vals, ""
 }
 
 // viaCallers follows a parameter of an unexported module function to the
@@ -321,8 +369,90 @@ func foreignJoinOperand(p *Prog, v ssa.Value, seen map[ssa.Value]bool) string {
 		return ""
 	case *ssa.Parameter:
 		return viaCallers(p, x, seen, foreignJoinOperand)
+	case *ssa.UnOp:
+		// a variable captured by a closure lives in a cell: everything ever
+		// stored into it, by the function or by the closures that share it
+		if x.Op == token.MUL {
+			if vals, ok := cellStores(x.X); ok {
+				for _, sv := range vals {
+					if w := foreignJoinOperand(p, sv, seen); w != "" {
+						return w
+					}
+				}
+				return ""
+			}
+		}
 	}
 	return "errors.Join of a list of unknown origin"
+}
+
+// cellStores returns every value stored into a local variable's cell (an
+// Alloc, or the free variable through which a closure shares it); ok is false
+// when the cell's address escapes in any other way.
+func cellStores(cell ssa.Value) (vals []ssa.Value, ok bool) {
+	// resolve a free variable to the cell it is bound to
+	for {
+		fv, isFV := cell.(*ssa.FreeVar)
+		if !isFV {
+			break
+		}
+		fn := fv.Parent()
+		idx := -1
+		for i, f := range fn.FreeVars {
+			if f == fv {
+				idx = i
+			}
+		}
+		parent := fn.Parent()
+		if idx < 0 || parent == nil {
+			return nil, false
+		}
+		var bound ssa.Value
+		for _, b := range parent.Blocks {
+			for _, ins := range b.Instrs {
+				if mc, isMC := ins.(*ssa.MakeClosure); isMC && mc.Fn == fn && idx < len(mc.Bindings) {
+					bound = mc.Bindings[idx]
+				}
+			}
+		}
+		if bound == nil {
+			return nil, false
+		}
+		cell = bound
+	}
+	a, isAlloc := cell.(*ssa.Alloc)
+	if !isAlloc {
+		return nil, false
+	}
+	ok = true
+	var visit func(addr ssa.Value, refs *[]ssa.Instruction)
+	visit = func(addr ssa.Value, refs *[]ssa.Instruction) {
+		if refs == nil {
+			return
+		}
+		for _, ref := range *refs {
+			switch r := ref.(type) {
+			case *ssa.Store:
+				if r.Addr == addr {
+					vals = append(vals, r.Val)
+				} else {
+					ok = false // the address itself is stored somewhere
+				}
+			case *ssa.UnOp, *ssa.DebugRef:
+			case *ssa.MakeClosure:
+				cf, _ := r.Fn.(*ssa.Function)
+				for i, bnd := range r.Bindings {
+					if bnd == addr && cf != nil && i < len(cf.FreeVars) {
+						visit(cf.FreeVars[i], cf.FreeVars[i].Referrers())
+					}
+				}
+			default:
+				ok = false
+			}
+		}
+	}
+	visit(a, a.Referrers())
+	return vals, ok
 }
 
 func errorMessages(ctx *Ctx, r *Result, rule string) {
@@ -808,4 +938,43 @@ func sortedSetAdd(ctx *Ctx, r *Result, rule string) {
 		good := len(ps) == 1 && len(ps[0].Effects) == 1 && ps[0].Effects[0].Name == "(*util.SortedSet).Add"
 		r.check(good, rule, funcName(f2)+" delegates to SortedSet.Add", ctx.P.Pos(f2.Pos()), "Set.Add is not a plain delegation", len(ps))
 	}
+}
+
+// excludedAt: the constants a value cannot equal at block b because a branch
+// that dominates b has compared the value with them (v != c taken, or v == c
+// not taken).
+func excludedAt(v ssa.Value, b *ssa.BasicBlock) map[string]bool {
+	out := map[string]bool{}
+	for d := b; d != nil && d.Idom() != nil; d = d.Idom() {
+		if len(d.Preds) != 1 {
+			continue
+		}
+		pb := d.Preds[0]
+		if len(pb.Instrs) == 0 {
+			continue
+		}
+		br, ok := pb.Instrs[len(pb.Instrs)-1].(*ssa.If)
+		if !ok {
+			continue
+		}
+		cmp, ok := br.Cond.(*ssa.BinOp)
+		if !ok || (cmp.Op != token.NEQ && cmp.Op != token.EQL) {
+			continue
+		}
+		var c *ssa.Const
+		switch {
+		case cmp.X == v:
+			c, _ = cmp.Y.(*ssa.Const)
+		case cmp.Y == v:
+			c, _ = cmp.X.(*ssa.Const)
+		}
+		if c == nil || c.Value == nil {
+			continue
+		}
+		onTrue := pb.Succs[0] == d
+		if (cmp.Op == token.NEQ && onTrue) || (cmp.Op == token.EQL && !onTrue) {
+			out[c.Value.ExactString()] = true
+		}
+	}
+	return out
 }
